@@ -33,6 +33,7 @@ def run(rep, progs, tier):
     rep.rule("C04.both-sites", "every Ok frame of an idle/noidle reply reaches the conversion before any return")
     rep.rule("C04.no-invention", "event payload <- from_frame <- Frame::get(\"changed\")")
     rep.rule("C04.verbatim", "unknown subsystem names are stored unchanged")
+    rep.rule("C04.lossless-queue", "events are never handed over with a lossy send (try_send / broadcast / watch)")
     rep.rule("C04.cancel-safe", "no droppable future holds consumed input across a suspension")
     rep.trusted = ["rustc MIR construction and coroutine witness computation", "mpdfacts exporter", "tokio mpsc delivery and documented cancel safety of recv"]
     for cfg, prog in progs.items():
@@ -58,6 +59,19 @@ def one(rep, prog, cfg):
                     if s2["k"] == "assign" and s2["place"]["l"] == l and s2["rv"]["k"] == "agg" and s2["rv"].get("variant") == "SubsystemChange":
                         sites.append((co, bb, s2))
     rep.floor("C04.all-changed", cfg + "/conversion sites", len(sites), 2)
+    # the event queue must not drop: lossy sends (try_send on a bounded channel, broadcast) lose changes when the
+    # application is slow to poll
+    for f in res["fns"]:
+        co = an.coroutine_of(f)
+        if co is None:
+            continue
+        for bb, t in co.calls():
+            ns = callee_names(t)
+            if any(n.rsplit("::", 1)[-1] in ("try_send", "send_timeout", "try_reserve") and "mpsc" in n or n.startswith("tokio::sync::broadcast::") or
+                   n.startswith("tokio::sync::watch::") for n in ns):
+                rep.fail("C04.lossless-queue", "%s/%s:%s" % (cfg, fn_name(prog, co), ns[0].rsplit("::", 2)[-2] + "::" + ns[0].rsplit("::", 1)[-1]),
+                         co.loc(co.blocks[bb]["ts"]),
+                         "events are handed over with %s: when the queue is full (or a value is overwritten) reported changes are dropped silently" % ns[0])
     for co, bb, agg in sites:
         g = Cfg(co)
         fl = Flow(co)
